@@ -1,5 +1,5 @@
 (* C05: bounded-buffer serialisation: exact capacity threshold, never out of bounds. *)
-From PV Require Import Base MachineInt DataModel Ser De Cobs CobsRef Crc SerFlavors Sinks Thresholds.
+From PV Require Import Base MachineInt DataModel Ser De Cobs CobsRef Crc SerFlavors Sinks Thresholds PtrDecl GenPtrCode PtrInterp PtrCodeFacts.
 Open Scope N_scope.
 
 (* caller slice (raw start/cursor/end pointers; a write outside the buffer is Fault):
@@ -60,6 +60,33 @@ Example C05_example :
   to_slice (VCollectStr [[104]; [105]]) [9; 9] = Err CollectStrError.
 Proof. repeat split; vm_compute; reflexivity. Qed.
 
+(* the slice storage of these theorems is the code: try_push, try_extend, finalize and index_mut
+   of ser/flavors.rs's Slice are re-read from the source on every run as statement trees over
+   the raw pointers and interpreted with pointers as indices *)
+Theorem C05_try_push_is_the_source : forall (s : slice_st) (b : byte),
+  slice_push s b = let* '(m, r) := prun ser_slice_try_push [PvByte b] (mach_of_s s) in
+                   match r with QUnit => Ok (s_of m) | _ => Panic end.
+Proof. exact slice_push_is_source. Qed.
+Theorem C05_try_extend_is_the_source : forall (s : slice_st) (bs : list byte),
+  slice_extend s bs = let* '(m, r) := prun ser_slice_try_extend [PvBs bs] (mach_of_s s) in
+                      match r with QUnit => Ok (s_of m) | _ => Panic end.
+Proof. exact slice_extend_is_source. Qed.
+Theorem C05_finalize_is_the_source : forall s : slice_st, (sl_cursor s <= length (sl_buf s))%nat ->
+  slice_finalize s = let* '(m, r) := prun ser_slice_finalize [] (mach_of_s s) in
+                     match r with QBytes bs => Ok (bs, pm_buf m) | _ => Panic end.
+Proof. exact slice_finalize_is_source. Qed.
+Theorem C05_index_mut_is_the_source : forall (s : slice_st) (idx : nat) (b : byte), (sl_start s <= sl_end s)%nat ->
+  slice_set s idx b =
+  let* '(m, r) := prun ser_slice_index_mut [PvN idx] (mach_of_s s) in
+  match r with
+  | QPlace at_ => match write_at (pm_buf m) at_ b with
+                  | Some buf' => Ok {| sl_buf := buf'; sl_start := pm_start m; sl_cursor := pm_cursor m; sl_end := pm_end m |}
+                  | None => Fault
+                  end
+  | _ => Panic
+  end.
+Proof. exact slice_set_is_source. Qed.
+
 Print Assumptions C05_slice.
 Print Assumptions C05_heapless.
 Print Assumptions C05_slice_cobs.
@@ -68,3 +95,7 @@ Print Assumptions C05_slice_crc.
 Print Assumptions C05_heapless_crc.
 Print Assumptions C05_growable.
 Print Assumptions C05_size.
+Print Assumptions C05_try_push_is_the_source.
+Print Assumptions C05_try_extend_is_the_source.
+Print Assumptions C05_finalize_is_the_source.
+Print Assumptions C05_index_mut_is_the_source.
